@@ -54,7 +54,8 @@ def _m_omp_reprod(case, clause, detail, finding):
         return False
     names = ("th_idx", "nthreads", "omp_thread_index", "omp_num_threads")
     ok_syms = _only(diff.get("syms", []), lambda l: l.startswith("@@") or
-                    any(n in l for n in names))
+                    (l.startswith("+") and any(n in l for n in names)) or
+                    l.startswith(("-  TAGS ", "+  TAGS ")))
     ok_text = _only(diff.get("text", []), lambda l: l.startswith("@@") or
                     (l.startswith("+") and ("th_idx" in l or "nthreads" in l)))
     return bool(diff.get("syms")) and ok_syms and ok_text
@@ -70,15 +71,31 @@ def _m_verbose_comment(case, clause, detail, finding):
     diff = detail or {}
     if "syms" in diff:
         return False
-    ok_tree = _only(diff.get("tree", []), lambda l: "Assignment#" in l and
-                    "_preceding_comment=" in l and l.count("==>") == 1
-                    and l.split(": ", 2)[2].startswith(" ==>"))
+    def tree_ok(l):
+        head, _, change = l.partition(":  ")
+        left, _, right = (" " + change).partition("==>")
+        return ("Assignment#" in l and left.strip() == ""
+                and right.strip().startswith("_preceding_comment="))
+    ok_tree = _only(diff.get("tree", []), tree_ok)
     ok_text = _only(diff.get("text", []), lambda l: l.startswith("@@") or
                     l.lstrip("+").lstrip().startswith("!"))
     return bool(diff.get("tree")) and ok_tree and ok_text
 
 
-MATCHERS = {"omp-reprod-symbols-before-validate": _m_omp_reprod,
+def _m_omptask_collapse(case, clause, detail, finding):
+    '''OMPTaskTrans does not validate options["collapse"]; the directive
+    constructor refuses it after ParallelLoopTrans.apply detached the loop.'''
+    if case["trans"] != "OMPTaskTrans" or "'collapse'" not in case["opts"]:
+        return False
+    if "Collapse attribute should not be set" not in (case["error"] or ""):
+        return False
+    diff = detail or {}
+    return all(_only(diff.get(c, []), lambda l: l.startswith(("@@", "-")))
+               for c in ("text", "syms", "tree")) and bool(diff.get("tree"))
+
+
+MATCHERS = {"omptask-collapse-refused-after-detach": _m_omptask_collapse,
+            "omp-reprod-symbols-before-validate": _m_omp_reprod,
             "verbose-refusal-comment": _m_verbose_comment}
 
 
@@ -145,6 +162,15 @@ def _collect_pytest(proc, tdir, log, tmp, timeout):
 
 # ------------------------------------------------------------- driver source
 
+def _fast():
+    '''C26_FAST=k (binding demonstrations only): 1/k of the quick driver quota
+    and only the first test directory.'''
+    try:
+        return max(1, int(os.environ.get("C26_FAST", "1")))
+    except ValueError:
+        return 1
+
+
 def _driver_jobs(tier):
     from pv import c26_driver
     progs = c26_driver.QUICK_PROGRAMS if tier == "quick" \
@@ -154,7 +180,7 @@ def _driver_jobs(tier):
         attempts, nnodes, names = c26_driver.plan(prog, tier)
         total = len(attempts)
         if tier == "quick":
-            attempts = attempts[:QUICK_QUOTA.get(prog, 4000)]
+            attempts = attempts[:QUICK_QUOTA.get(prog, 4000) // _fast()]
         planned[prog] = {"nodes": nnodes, "transformations": len(names),
                          "planned": total, "run": len(attempts)}
         for k in range(0, len(attempts), CHUNK):
@@ -283,6 +309,8 @@ def run(tier):
     try:
         # test-suite subset under the recorder, in the background
         dirs = TEST_DIRS_QUICK if tier == "quick" else TEST_DIRS_THOROUGH
+        if _fast() > 1:
+            dirs = dirs[:1]
         nproc = max(2, core.NCPU // 2)
         proc, tdir, log = _start_pytest(tmp, dirs, nproc)
         try:
